@@ -166,6 +166,13 @@ func (t *ProcessorTask) markBatchRecords(b *Batch, from int, records []sdk.Proce
 		errs := make([]error, len(records))
 		for i, rec := range records {
 			errs[i] = rec.(sdk.ErrorRecord).Error
+			if errs[i] == nil {
+				// An error record must always carry an error: it is the nack
+				// reason, and a nil reason reads as "no failure" further down
+				// (a disabled DLQ would skip the record, an enabled one
+				// dereferences it).
+				errs[i] = cerrors.New("processor returned an error record without an error")
+			}
 		}
 		b.Nack(from, errs...)
 	case sdk.MultiRecord:
